@@ -1,4 +1,5 @@
-\* quick (with MaxNow = 4) + thorough: the repaired design, 2 requests, shutdown at any point - every safety clause and liveness
+\* quick (with MaxNow = 4) + thorough: the repaired design, 2 requests, shutdown at any point, quota consultations may fail -
+\* every safety clause and liveness
 CONSTANTS
   Req = {"r1", "r2"}
   Prio <- cPrio2
@@ -9,6 +10,7 @@ CONSTANTS
   QW = 2
   MaxNow = 5
   Shutdowns = TRUE
+  Faults = TRUE
   SplitSlotCheck = FALSE
   RequeueNewTs = FALSE
   StopAllGuarded = TRUE
@@ -17,6 +19,8 @@ CONSTANTS
   HeapFifo = TRUE
   SlotStrict = TRUE
   CallsStopAll = TRUE
+  PushBeforeRegister = FALSE
+  FaultDropsHead = FALSE
 SPECIFICATION FairSpec
 INVARIANTS TypeOK OneVerdict OnlyIfQuota Order SizeBound NoCrash Protocol Faithful NotStranded
 PROPERTIES Answered DrainReleases
